@@ -108,3 +108,58 @@ func vals(items []ref.Val) []wire.Value {
 	}
 	return out
 }
+
+// Force converts a wire.Value into a ref.Val, forcing every lazy container
+// exactly once and closing it, and propagating the errors forcing reports.
+func Force(v wire.Value) (out ref.Val, err error) {
+	switch v.Type() {
+	case wire.TStruct:
+		out = ref.Val{T: ref.TStruct}
+		for _, f := range v.GetStruct().Fields {
+			fv, err := Force(f.Value)
+			if err != nil {
+				return out, err
+			}
+			out.Fields = append(out.Fields, ref.Field{ID: f.ID, V: fv})
+		}
+		return out, nil
+	case wire.TMap:
+		m := v.GetMap()
+		out = ref.Val{T: ref.TMap, KT: byte(m.KeyType()), VT: byte(m.ValueType())}
+		err = m.ForEach(func(it wire.MapItem) error {
+			k, err := Force(it.Key)
+			if err != nil {
+				return err
+			}
+			x, err := Force(it.Value)
+			if err != nil {
+				return err
+			}
+			out.Items = append(out.Items, k, x)
+			return nil
+		})
+		m.Close()
+		return out, err
+	case wire.TSet, wire.TList:
+		var l wire.ValueList
+		if v.Type() == wire.TSet {
+			l = v.GetSet()
+			out = ref.Val{T: ref.TSet}
+		} else {
+			l = v.GetList()
+			out = ref.Val{T: ref.TList}
+		}
+		out.VT = byte(l.ValueType())
+		err = l.ForEach(func(it wire.Value) error {
+			x, err := Force(it)
+			if err != nil {
+				return err
+			}
+			out.Items = append(out.Items, x)
+			return nil
+		})
+		l.Close()
+		return out, err
+	}
+	return FromWire(v), nil
+}
